@@ -1,27 +1,38 @@
 #!/bin/bash
 # selftest: every patch under selftest/mutants/<Cxx>/ must make ./check <Cxx> report a VIOLATION,
-# every patch under selftest/refactors/<Cxx>/ must leave it passing. Scratch copies live under $TMPDIR.
+# every patch under selftest/refactors/<Cxx>/ must leave it passing. Each case runs on its own scratch
+# copy of /repo under $TMPDIR (removed afterwards); SELFTEST_JOBS cases run in parallel (default 4).
 DIR="$(cd "$(dirname "$0")/.." && pwd)"
 ONLY="$1"
-T="${TMPDIR:-/tmp}/govc-selftest-$$"
-fail=0; n=0
+export DIR
 run_one() { # kind prop patch
   kind=$1; prop=$2; patch=$3
-  rm -rf "$T"; mkdir -p "$T"; rsync -a --exclude .git /repo/ "$T/repo/"
-  if ! (cd "$T/repo" && patch -p1 -s < "$patch"); then echo "SELFTEST-ERROR $patch does not apply"; fail=1; return; fi
+  T=$(mktemp -d "${TMPDIR:-/tmp}/govc-selftest.XXXXXX")
+  rsync -a --exclude .git /repo/ "$T/repo/"
+  if ! (cd "$T/repo" && patch -p1 -s < "$patch"); then echo "SELFTEST-ERROR $patch does not apply"; rm -rf "$T"; return; fi
   out=$(cd "$DIR" && VERIF_REPO="$T/repo" VERIF_EVIDENCE_DIR="$T/evidence" ./check "$prop" 2>&1); rc=$?
-  n=$((n+1))
+  rm -rf "$T"
   if [ "$kind" = mutant ]; then
-    if [ $rc -ne 0 ] && echo "$out" | grep -q '^VIOLATION'; then echo "ok   mutant   $prop $(basename $patch): $(echo "$out" | grep -m1 -o 'obligation=[^ ]*')"
-    else echo "MISS mutant   $prop $(basename $patch) (check passed)"; fail=1; fi
+    obls=$(echo "$out" | grep -o 'obligation=[^ ]*' | sort -u | paste -sd' ')
+    if [ "$obls" = "obligation=engine" ]; then echo "CORPUS-BUG mutant $prop $(basename $patch): only an engine error (does the mutant compile?)"
+    elif [ $rc -ne 0 ] && echo "$out" | grep -q '^VIOLATION'; then echo "ok   mutant   $prop $(basename $patch): $(echo "$out" | grep -m1 -o 'obligation=[^ ]*')"
+    else echo "MISS mutant   $prop $(basename $patch) (check passed)"; fi
   else
-    if [ $rc -eq 0 ]; then echo "ok   refactor $prop $(basename $patch)"; else echo "FALSE-ALARM refactor $prop $(basename $patch): $(echo "$out" | grep -m1 VIOLATION)"; fail=1; fi
+    if [ $rc -eq 0 ]; then echo "ok   refactor $prop $(basename $patch)"; else echo "FALSE-ALARM refactor $prop $(basename $patch): $(echo "$out" | grep -m1 VIOLATION)"; fi
   fi
 }
+export -f run_one
+[ -x "$DIR/bin/govc" ] || (cd "$DIR" && ./build.sh >/dev/null 2>&1)
+LIST=$(mktemp)
 for d in "$DIR"/selftest/mutants/*/; do p=$(basename "$d"); [ -n "$ONLY" ] && [ "$ONLY" != "$p" ] && continue
-  for f in "$d"*.patch; do [ -f "$f" ] && run_one mutant "$p" "$f"; done; done
+  for f in "$d"*.patch; do [ -f "$f" ] && echo "mutant $p $f" >> "$LIST"; done; done
 for d in "$DIR"/selftest/refactors/*/; do p=$(basename "$d"); [ -n "$ONLY" ] && [ "$ONLY" != "$p" ] && continue
-  for f in "$d"*.patch; do [ -f "$f" ] && run_one refactor "$p" "$f"; done; done
-rm -rf "$T"
+  for f in "$d"*.patch; do [ -f "$f" ] && echo "refactor $p $f" >> "$LIST"; done; done
+OUT=$(mktemp)
+xargs -P "${SELFTEST_JOBS:-4}" -L 1 bash -c 'run_one "$0" "$1" "$2"' < "$LIST" | tee "$OUT"
+n=$(wc -l < "$LIST"); fail=0
+grep -q -E '^(MISS|FALSE-ALARM|SELFTEST-ERROR|CORPUS-BUG)' "$OUT" && fail=1
+[ "$(wc -l < "$OUT")" -ne "$n" ] && fail=1
+rm -f "$LIST" "$OUT"
 echo "selftest: $n cases, fail=$fail"
 exit $fail
